@@ -12,6 +12,8 @@ pub struct RawMutexLock {
 impl RawMutexLock {
     #[inline(never)]
     fn lock_no_inline(&self) {
+        #[cfg(kanal_verif)]
+        crate::verif::rt::probe(crate::verif::rt::probe::MUTEX_SLOW);
         spin_cond(|| self.try_lock());
     }
 }
@@ -24,6 +26,8 @@ unsafe impl RawMutex for RawMutexLock {
     type GuardMarker = GuardSend;
     #[inline(always)]
     fn lock(&self) {
+        #[cfg(kanal_verif)]
+        let _verif_cs = crate::verif::rt::CsEnterOnDrop(self as *const Self as usize);
         if self.try_lock() {
             return;
         }
@@ -39,6 +43,8 @@ unsafe impl RawMutex for RawMutexLock {
 
     #[inline(always)]
     unsafe fn unlock(&self) {
+        #[cfg(kanal_verif)]
+        crate::verif::rt::cs_leave(self as *const Self as usize);
         self.locked.store(false, Ordering::Release);
     }
 }
